@@ -148,6 +148,10 @@ class _Canon(ast.NodeTransformer):
         # identity with an enum member is equality with it (members are singletons): one spelling, `==` / `!=`
         if len(n.ops) == 1 and isinstance(n.ops[0], (ast.Is, ast.IsNot)) and (self._enum_member(n.comparators[0]) or self._enum_member(n.left)):
             n.ops = [ast.Eq() if isinstance(n.ops[0], ast.Is) else ast.NotEq()]
+        # ... and so is identity between two enum-valued message fields (`a.message_type is not b.message_type`, `a.key is b.key`)
+        if len(n.ops) == 1 and isinstance(n.ops[0], (ast.Is, ast.IsNot)) and all(isinstance(x, ast.Attribute) and x.attr in ("message_type", "key")
+                                                                                  for x in (n.left, n.comparators[0])):
+            n.ops = [ast.Eq() if isinstance(n.ops[0], ast.Is) else ast.NotEq()]
         # one spelling per comparison: a constant-like operand (literal, ALL_CAPS name, enum member) stands on the right;
         # otherwise order comparisons point "upwards" (`<`, `<=`) and (in)equalities put the textually smaller operand first
         if len(n.ops) == 1 and type(n.ops[0]) in self._MIRROR:
